@@ -436,19 +436,14 @@ def oracle_case(env, case, iblocks):
                     "the connection is not dropped" if "closeclient" not in evs else ""] if x)
                 fails.append((j, "file transfer not permitted when the message (type %d/%d) arrives, yet %s" % (msg[1], msg[2], what), dict(feat, kind="ungated")))
                 continue
-        # a refusing guard drops the connection at once
-        for a, b in zip(evs, evs[1:] + ["<end>"]):
-            if a == "ask 0" and b != "closeclient" and not (len(msg) > 1 and msg[1] == ABRT):
-                fails.append((j, "permission callback answered no and the connection was not dropped (next event: %s)" % b[:60], dict(feat, kind="refusal-ignored")))
-                break
         # nothing after the connection was dropped
         seen_stop = False
         for e in evs:
             if seen_stop and (e.startswith("tx ") or (e.startswith("fs ") and e.split()[1] in PATH_OPS + ("read", "write", "readdir"))):
                 fails.append((j, "effect after the connection was refused/closed: %s" % e[:80], dict(feat, kind="effect-after-refusal")))
                 break
-            if e == "closeclient":      # (a refusing guard is 'ask 0' immediately followed by closeclient; the permission
-                seen_stop = True        #  handshake of rfbAbortFileTransfer also asks, and then reports the answer)
+            if e == "closeclient":      # (a refusing guard is 'ask 0' immediately followed by closeclient; the permission handshake
+                seen_stop = True        #  of rfbAbortFileTransfer and the silent re-check of the chunk sender also ask, without closing)
         # every path operated on is the documented translation of a name the client sent
         if is_ft:
             names = named_paths(msg)
